@@ -31,16 +31,11 @@ Proof.
   - apply key_eqb_neq. apply key_eqb_neq in E. congruence.
 Qed.
 
-Section Proofs.
-  Context {V Dg : Type}.
-  Variable zero : Dg.
-  Variable hleaf : key -> V -> Dg.
-  Variable hnode : Dg -> Dg -> Dg.
+Section Maps.
+  Context {V : Type}.
 
   Notation smap := (@smap V).
   Notation sub := (@sub V).
-  Notation sroot := (sroot zero hleaf hnode).
-  Notation c_root := (c_root zero hleaf hnode).
   Notation build := (@build V).
 
   (* ================================================================ suffix maps *)
@@ -228,19 +223,16 @@ Section Proofs.
   Qed.
 
   (* ================================================================ build / sroot *)
-  Lemma c_root_build d : forall pre (m : smap), c_root pre (build d m) = sroot d pre m.
-  Proof.
-    induction d as [|d IH]; intros pre m.
-    - destruct m as [|[k v] [|e2 m]]; reflexivity.
-    - destruct m as [|[k v] [|e2 m]]; try reflexivity.
-      cbn [SparseFun.build SparseSpec.sroot SparseFun.c_root]. rewrite !IH. reflexivity.
-  Qed.
-
   Lemma build_small d (m : smap) :
     length m <= 1 -> build d m = match m with [] => CE | (k, v) :: _ => CL k v end.
   Proof.
     destruct m as [|[k v] [|e2 m]]; simpl; intros H; try lia; destruct d; reflexivity.
   Qed.
+
+  Lemma build_nil d : build d [] = CE.
+  Proof. destruct d; reflexivity. Qed.
+  Lemma build_single d k v : build d [(k, v)] = CL k v.
+  Proof. destruct d; reflexivity. Qed.
 
   Lemma build_big d (m : smap) :
     2 <= length m -> build (S d) m = CN (build d (sub false m)) (build d (sub true m)).
@@ -265,11 +257,11 @@ Section Proofs.
     - destruct k1; [|discriminate]. destruct k2; [|discriminate]. congruence.
     - destruct k1 as [|b1 r1]; [discriminate|]. destruct k2 as [|b2 r2]; [discriminate|].
       injection H1 as H1. injection H2 as H2.
-      rewrite build_big by (simpl; lia). cbn [c_split]. rewrite !sub_cons. cbn [SparseSpec.sub flat_map app].
-      destruct b1, b2; cbn [Bool.eqb];
-        try (rewrite (build_small d [_]) by (simpl; lia); rewrite (build_small d [_]) by (simpl; lia); reflexivity).
-      + rewrite (build_small d []) by (simpl; lia). rewrite IH; auto. congruence.
-      + rewrite (build_small d []) by (simpl; lia). rewrite IH; auto. congruence.
+      rewrite build_big by (simpl; lia). cbn [c_split]. rewrite !sub_cons.
+      destruct b1, b2; cbn [Bool.eqb SparseSpec.sub flat_map app];
+        rewrite ?build_nil, ?build_single; try reflexivity.
+      + rewrite IH; auto. congruence.
+      + rewrite IH; auto. congruence.
   Qed.
 
   Lemma c_insert_build d : forall k (v : V) (m : smap), swf d m -> length k = d ->
@@ -281,11 +273,11 @@ Section Proofs.
       + reflexivity.
       + destruct Hwf as [_ Hl]. inversion Hl; subst. simpl in *. destruct k'; [|discriminate]. reflexivity.
     - destruct m as [|[k' v'] [|e2 m]].
-      + reflexivity.
+      + unfold m_set. cbn. reflexivity.
       + cbn [SparseFun.build c_insert]. unfold m_set. rewrite m_del_cons. cbn [m_del filter].
         rewrite (key_eqb_sym k' k). destruct (key_eqb k k') eqn:E; [reflexivity|].
-        apply key_eqb_neq in E. destruct Hwf as [_ Hl]. inversion Hl; subst. simpl in *.
-        apply c_split_build; auto.
+        apply key_eqb_neq in E. destruct Hwf as [_ Hl]. inversion Hl as [|? ? Hk' _]; subst. simpl in Hk'.
+        change (c_split k v k' v' = build (S d) [(k, v); (k', v')]). apply c_split_build; auto.
       + assert (2 <= length ((k', v') :: e2 :: m)) as Hbig by (simpl; lia).
         rewrite build_big by exact Hbig.
         assert (2 <= length (m_set k v ((k', v') :: e2 :: m))) as Hbig'.
@@ -316,9 +308,7 @@ Section Proofs.
     - destruct m as [|[k v] [|e2 m]]; simpl in Hsmall; try lia.
       + simpl. destruct d; reflexivity.
       + destruct Hwf as [_ Hl]. inversion Hl; subst. simpl in *. destruct k as [|b kr]; [discriminate|].
-        rewrite !sub_cons. cbn [SparseSpec.sub flat_map app SparseFun.build].
-        destruct b; cbn [Bool.eqb]; rewrite (build_small d [_]) by (simpl; lia);
-          rewrite (build_small d []) by (simpl; lia); reflexivity.
+        destruct b, d; reflexivity.
   Qed.
 
   Lemma c_delete_build d : forall k (m : smap), swf d m -> length k = d ->
@@ -380,19 +370,42 @@ Section Proofs.
       + cbn [c_step m_step]. rewrite c_delete_build by assumption. apply IH. apply swf_m_del; assumption.
   Qed.
 
+End Maps.
+
+Section Proofs.
+  Context {V Dg : Type}.
+  Variable zero : Dg.
+  Variable hleaf : key -> V -> Dg.
+  Variable hnode : Dg -> Dg -> Dg.
+
+  Notation smap := (@smap V).
+  Notation sub := (@sub V).
+  Notation sroot := (sroot zero hleaf hnode).
+  Notation c_root := (c_root zero hleaf hnode).
+  Notation build := (@build V).
+
+  Lemma c_root_build d : forall pre (m : smap), c_root pre (build d m) = sroot d pre m.
+  Proof.
+    induction d as [|d IH]; intros pre m.
+    - destruct m as [|[k v] [|e2 m]]; reflexivity.
+    - destruct m as [|[k v] [|e2 m]]; try reflexivity.
+      cbn [SparseFun.build SparseSpec.sroot SparseFun.c_root]. rewrite !IH. reflexivity.
+  Qed.
+
+
   Theorem fun_root_is_spec_root D (ops : list (@mop V)) : ops_wf D ops ->
     c_root [] (fold_left c_step ops CE) = smt_root zero hleaf hnode D (map_after ops)
     /\ wf_map D (map_after ops).
   Proof.
     intros Hops. destruct (fold_build D ops Hops [] (swf_nil D)) as [E Hwf].
-    change (@CE V) with (build D []). rewrite E. split; [apply c_root_build | exact Hwf].
+    rewrite build_nil in E. rewrite E. split; [apply c_root_build | exact Hwf].
   Qed.
 
   Theorem fun_get_is_map_get D (ops : list (@mop V)) k : ops_wf D ops -> length k = D ->
     c_get k (fold_left c_step ops CE) = m_get (map_after ops) k.
   Proof.
     intros Hops Hk. destruct (fold_build D ops Hops [] (swf_nil D)) as [E Hwf].
-    change (@CE V) with (build D []). rewrite E. apply c_get_build; assumption.
+    rewrite build_nil in E. rewrite E. apply c_get_build; assumption.
   Qed.
 
   (* ================================================================ the root depends only on the map *)
@@ -441,5 +454,168 @@ Section Proofs.
     destruct (fun_root_is_spec_root D ops1 H1) as [-> W1].
     destruct (fun_root_is_spec_root D ops2 H2) as [-> W2].
     apply smt_root_extensional; assumption.
+  Qed.
+
+  Lemma c_sides_build d : forall pre ks (m : smap), swf d m -> length ks = d ->
+    c_sides zero hleaf hnode pre ks (build d m) = SparseSpec.spec_sides zero hleaf hnode d pre ks m.
+  Proof.
+    induction d as [|d IH]; intros pre ks m Hwf Hk.
+    - pose proof (swf_zero_small m Hwf) as Hs.
+      destruct m as [|[k v] [|e2 m]]; simpl in Hs; try lia; destruct ks; reflexivity.
+    - destruct m as [|[k v] [|e2 m]].
+      + destruct ks; reflexivity.
+      + destruct ks; reflexivity.
+      + rewrite build_big by (simpl; lia). destruct ks as [|b ks]; [discriminate|]. injection Hk as Hk.
+        cbn [SparseSpec.spec_sides]. destruct b; cbn [c_sides negb]; rewrite c_root_build;
+          rewrite IH by (auto using swf_sub); reflexivity.
+  Qed.
+
+  Lemma c_terminal_build d : forall pre ks (m : smap), swf d m -> length ks = d ->
+    c_terminal pre ks (build d m) = spec_terminal d pre ks m.
+  Proof.
+    induction d as [|d IH]; intros pre ks m Hwf Hk.
+    - pose proof (swf_zero_small m Hwf) as Hs.
+      destruct m as [|[k v] [|e2 m]]; simpl in Hs; try lia; destruct ks; reflexivity.
+    - destruct m as [|[k v] [|e2 m]].
+      + destruct ks; reflexivity.
+      + destruct ks; reflexivity.
+      + rewrite build_big by (simpl; lia). destruct ks as [|b ks]; [discriminate|]. injection Hk as Hk.
+        cbn [SparseSpec.spec_terminal]. destruct b; cbn [c_terminal]; rewrite IH by (auto using swf_sub); reflexivity.
+  Qed.
+
+  (* ================================================================ C14 at spec level *)
+  Notation path_root := (path_root hnode).
+  Notation xleaf_hash := (xleaf_hash zero hleaf).
+  Notation spec_sides := (spec_sides zero hleaf hnode).
+
+  Lemma app_snoc_assoc (pre : key) b ks : (pre ++ [b]) ++ ks = pre ++ b :: ks.
+  Proof. rewrite <- app_assoc. reflexivity. Qed.
+
+  (* ---- completeness: the siblings along the key recompute the root *)
+  Lemma spec_path_complete d : forall pre ks (m : smap), swf d m -> length ks = d ->
+    path_root ks (spec_sides d pre ks m) (xleaf_hash (spec_terminal d pre ks m)) = Some (sroot d pre m).
+  Proof.
+    induction d as [|d IH]; intros pre ks m Hwf Hk.
+    - pose proof (swf_zero_small m Hwf) as Hs.
+      destruct m as [|[k v] [|e2 m]]; simpl in Hs; try lia; reflexivity.
+    - destruct m as [|[k v] [|e2 m]]; try reflexivity.
+      destruct ks as [|b ks]; [discriminate|]. injection Hk as Hk.
+      cbn [SparseSpec.spec_sides SparseSpec.spec_terminal SparseSpec.path_root SparseSpec.sroot].
+      rewrite (IH (pre ++ [b]) ks (sub b _)) by (auto using swf_sub).
+      destruct b; reflexivity.
+  Qed.
+
+  Lemma spec_terminal_present d : forall pre ks (m : smap) v, swf d m -> length ks = d ->
+    m_get m ks = Some v -> spec_terminal d pre ks m = XLeaf (pre ++ ks) v.
+  Proof.
+    induction d as [|d IH]; intros pre ks m v Hwf Hk Hg.
+    - pose proof (swf_zero_small m Hwf) as Hs.
+      destruct m as [|[k w] [|e2 m]]; simpl in Hs; try lia; simpl in Hg; [discriminate|].
+      destruct (key_eqb k ks) eqn:E; [|discriminate]. apply key_eqb_eq in E. subst. injection Hg as ->. reflexivity.
+    - destruct m as [|[k w] [|e2 m]].
+      + discriminate.
+      + simpl in Hg. destruct (key_eqb k ks) eqn:E; [|discriminate]. apply key_eqb_eq in E. subst.
+        injection Hg as ->. reflexivity.
+      + destruct ks as [|b ks]; [discriminate|]. injection Hk as Hk.
+        cbn [SparseSpec.spec_terminal]. rewrite (IH (pre ++ [b]) ks (sub b _) v); auto using swf_sub.
+        * rewrite app_snoc_assoc. reflexivity.
+        * rewrite m_get_sub. exact Hg.
+  Qed.
+
+  Lemma spec_terminal_absent d : forall pre ks (m : smap), swf d m -> length ks = d ->
+    m_get m ks = None ->
+    match spec_terminal d pre ks m with
+    | XPlaceholder => True
+    | XLeaf k' _ => k' <> pre ++ ks
+    end.
+  Proof.
+    induction d as [|d IH]; intros pre ks m Hwf Hk Hg.
+    - pose proof (swf_zero_small m Hwf) as Hs.
+      destruct m as [|[k w] [|e2 m]]; simpl in Hs; try lia; simpl in *; [exact I|].
+      destruct (key_eqb k ks) eqn:E; [discriminate|]. apply key_eqb_neq in E.
+      intros H. apply app_inv_head in H. contradiction.
+    - destruct m as [|[k w] [|e2 m]].
+      + exact I.
+      + simpl in *. destruct (key_eqb k ks) eqn:E; [discriminate|]. apply key_eqb_neq in E.
+        intros H. apply app_inv_head in H. contradiction.
+      + destruct ks as [|b ks]; [discriminate|]. injection Hk as Hk.
+        cbn [SparseSpec.spec_terminal].
+        specialize (IH (pre ++ [b]) ks (sub b ((k, w) :: e2 :: m)) (swf_sub d b _ Hwf) Hk).
+        rewrite m_get_sub in IH. specialize (IH Hg). rewrite app_snoc_assoc in IH. exact IH.
+  Qed.
+
+  Theorem spec_incl_complete D (m : smap) k v : wf_map D m -> length k = D -> m_get m k = Some v ->
+    spec_verify_incl hleaf hnode (smt_root zero hleaf hnode D m) k v (rev (spec_sides D [] k m)).
+  Proof.
+    intros Hwf Hk Hg. unfold spec_verify_incl. rewrite rev_involutive.
+    pose proof (spec_path_complete D [] k m Hwf Hk) as H.
+    rewrite (spec_terminal_present D [] k m v Hwf Hk Hg) in H. exact H.
+  Qed.
+
+  Theorem spec_excl_complete D (m : smap) k : wf_map D m -> length k = D -> m_get m k = None ->
+    spec_verify_excl zero hleaf hnode (smt_root zero hleaf hnode D m) k (rev (spec_sides D [] k m))
+                     (spec_terminal D [] k m).
+  Proof.
+    intros Hwf Hk Hg. unfold spec_verify_excl. rewrite rev_involutive. split.
+    - pose proof (spec_terminal_absent D [] k m Hwf Hk Hg) as H.
+      destruct (spec_terminal D [] k m); [exact H | exact I].
+    - apply (spec_path_complete D [] k m Hwf Hk).
+  Qed.
+
+  (* ---- soundness under collision-freeness, for ARBITRARY side-node lists *)
+  Hypothesis Hok : hash_ok zero hleaf hnode.
+
+  Lemma path_sound : forall sides d pre ks (m : smap) cur, swf d m -> length ks = d ->
+    path_root ks sides cur = Some (sroot d pre m) ->
+    (forall v, cur = hleaf (pre ++ ks) v -> m_get m ks = Some v) /\
+    (cur = zero \/ (exists k' v', cur = hleaf k' v' /\ k' <> pre ++ ks) -> m_get m ks = None).
+  Proof.
+    destruct Hok as [Hli [Hni [Hln [Hlz Hnz]]]].
+    induction sides as [|s sides IH]; intros d pre ks m cur Hwf Hk Hp.
+    - simpl in Hp. injection Hp as Hp.
+      destruct m as [|[k1 v1] [|e2 m]].
+      + (* empty *) split.
+        * intros v E. rewrite E in Hp. destruct d; simpl in Hp; exfalso; eapply Hlz; eauto.
+        * intros _. reflexivity.
+      + (* singleton *) assert (sroot d pre [(k1, v1)] = hleaf (pre ++ k1) v1) as Es by (destruct d; reflexivity).
+        rewrite Es in Hp. split.
+        * intros v E. rewrite E in Hp. apply Hli in Hp as [E1 E2]. apply app_inv_head in E1. subst.
+          simpl. rewrite key_eqb_refl. reflexivity.
+        * intros [E|[k' [v' [E Hne]]]]; rewrite E in Hp.
+          -- exfalso. symmetry in Hp. eapply Hlz; eauto.
+          -- apply Hli in Hp as [E1 E2]. subst k'. simpl.
+             destruct (key_eqb k1 ks) eqn:E3; [|reflexivity]. apply key_eqb_eq in E3. subst. contradiction.
+      + (* two or more *) destruct d.
+        * apply swf_zero_small in Hwf. simpl in Hwf. lia.
+        * cbn [SparseSpec.sroot] in Hp. split.
+          -- intros v E. rewrite E in Hp. exfalso. eapply Hln; eauto.
+          -- intros [E|[k' [v' [E Hne]]]]; rewrite E in Hp; exfalso.
+             ++ symmetry in Hp. eapply Hnz; eauto.
+             ++ eapply Hln; eauto.
+    - destruct ks as [|b ks]; [discriminate|]. simpl in Hp.
+      destruct (SparseSpec.path_root hnode ks sides cur) as [x|] eqn:Ex; [|discriminate].
+      injection Hp as Hp. destruct d; [discriminate|]. injection Hk as Hk.
+      destruct m as [|[k1 v1] [|e2 m]].
+      + exfalso. simpl in Hp. destruct b; eapply Hnz; eauto.
+      + exfalso. simpl in Hp. destruct b; symmetry in Hp; eapply Hln; eauto.
+      + cbn [SparseSpec.sroot] in Hp.
+        assert (x = sroot d (pre ++ [b]) (sub b ((k1, v1) :: e2 :: m))) as Ex'.
+        { destruct b; apply Hni in Hp as [E1 E2]; assumption. }
+        subst x.
+        destruct (IH d (pre ++ [b]) ks (sub b ((k1, v1) :: e2 :: m)) cur (swf_sub d b _ Hwf) Hk Ex) as [I1 I2].
+        rewrite app_snoc_assoc in I1, I2. rewrite m_get_sub in I1, I2. split; assumption.
+  Qed.
+
+  Theorem spec_incl_sound D (m : smap) k v ps : wf_map D m -> length k = D ->
+    spec_verify_incl hleaf hnode (smt_root zero hleaf hnode D m) k v ps -> m_get m k = Some v.
+  Proof.
+    intros Hwf Hk Hv. destruct (path_sound (rev ps) D [] k m _ Hwf Hk Hv) as [H _]. apply H. reflexivity.
+  Qed.
+
+  Theorem spec_excl_sound D (m : smap) k ps l : wf_map D m -> length k = D ->
+    spec_verify_excl zero hleaf hnode (smt_root zero hleaf hnode D m) k ps l -> m_get m k = None.
+  Proof.
+    intros Hwf Hk [Hl Hv]. destruct (path_sound (rev ps) D [] k m _ Hwf Hk Hv) as [_ H]. apply H.
+    destruct l as [k' v'|]; [right; exists k', v'; auto | left; reflexivity].
   Qed.
 End Proofs.
